@@ -37,6 +37,7 @@ pub struct Excl {
     pub width255: bool,
     pub aux_norand: bool,
     pub ood_evals_big: bool,
+    pub len_over_31: bool,
 }
 
 /// While a class is an open known finding only every 16th member of it (chosen by a fixed function
@@ -267,7 +268,7 @@ impl<G: Group> SubCheck for Rt<G> {
         let n = G::cases(tier);
         match self.rd {
             Rd::Mem => n,
-            Rd::Adapter if self.reduced => (n / 100).min(G::REDUCED_MAX).max(16),
+            Rd::Adapter if self.reduced => (n / 100).min(G::REDUCED_MAX),
             Rd::Adapter => n / 2,
         }
     }
@@ -347,10 +348,14 @@ pub fn run(run: &mut Run) {
         width255: run.is_known("mem/trace-info/TraceInfo/slice/err:InvalidValue(full trace width"),
         aux_norand: run.is_known("mem/trace-info/TraceInfo/slice/err:InvalidValue(a non-empty trace segment"),
         ood_evals_big: run.is_known("mem/ood/OodFrame(evals>65535B)/"),
+        len_over_31: run.is_known("mem/trace-info/TraceInfo/slice/err:InvalidValue(trace length cannot be greater than"),
     };
     let reduced = run.is_known("adapter/");
     if reduced {
-        run.note("reduced_known", serde_json::json!("adapter/* sub-checks run 1% of their case count while the ReadAdapter finding is open"));
+        run.note(
+            "reduced_known",
+            serde_json::json!("adapter/* sub-checks run 1% of their case count (adapter/proof 16 cases, adapter/queries and adapter/fri none: their parts are inside adapter/proof) while the ReadAdapter finding is open, because the engine shrinks every failing case"),
+        );
     }
     prim::run(run, excl, reduced);
     structs::run(run, excl, reduced);
